@@ -105,7 +105,7 @@ Coded(b, o) ==
              ELSE IF b0 < 248 THEN 4 ELSE IF b0 < 252 THEN 5 ELSE IF b0 < 254 THEN 6 ELSE IF b0 = 254 THEN 7 ELSE 0
         lead == IF n = 1 THEN b0 ELSE IF n = 0 THEN 0 ELSE b0 % P2(7 - n)
         contOk == \A k \in 1..(n - 1) : B(b, o + k) \div 64 = 2
-        big == n = 7 \/ (n = 6 /\ lead > 0)              \* more than 30 payload bits
+        big == n = 7                                      \* 36 payload bits: beyond TLC integers (6 bytes carry 31 bits, which fit)
         val == IF big \/ n = 0 THEN 0
                ELSE FoldLeft(LAMBDA a, k : a * 64 + (B(b, o + k) % 64), lead, [k \in 1..(n - 1) |-> k])
     IN [len |-> IF n = 0 THEN 1 ELSE n, ok |-> n # 0 /\ contOk, val |-> val, big |-> big]
